@@ -60,12 +60,12 @@ def execute(scen, policy="FIFO", schedule=None, expect=None, kill=None, keep_dir
     killspec = None
     if kill is not None:
         step, pid = kill["step"], kill.get("pid", 1)
-        restart_ops = scen.get("restart")
+        restart_ops = scen.get("restart") if not isinstance(pid, str) else None
 
         def restart(hub):
             if restart_ops is None:
                 return
-            proc = V.new_simproc("scheduler", pid=50 + pid)
+            proc = V.new_simproc("scheduler", pid=50 + (pid if isinstance(pid, int) else 1))
             script = make_script(restart_ops, scen, "restart")
 
             def main():
